@@ -47,10 +47,15 @@ def run_case(case):
             return ('ok', np.asarray(val).tolist(), list(np.shape(val)), np.asarray(info.error_estimate).tolist())
         if mode == 'dirdiff':
             F = multi.comp_fun(rec['comps'][0], x0)
-            v = np.array([((3 * j + 1) % 5) - 2.0 for j in range(n)])
+            v = np.array([((3 * j + 1) % 5) - 2.0 + (0.5 if j == 1 else 0.0) for j in range(n)])
             if not v.any():
                 v[0] = 1.0
-            val, info = nd.directionaldiff(F, np.array(x0), v, method=method, order=order, full_output=True)
+            if n % 2 == 0 and n >= 4 and order == 2:
+                # documented usage: x0 an n1 x n2 array, vec of the same (matrix) shape
+                X0m, Vm = np.array(x0).reshape(2, n // 2), v.reshape(2, n // 2)
+                val, info = nd.directionaldiff(lambda z: F(np.ravel(z)), X0m, Vm, method=method, order=order, full_output=True)
+            else:
+                val, info = nd.directionaldiff(F, np.array(x0), v, method=method, order=order, full_output=True)
             return ('ok', float(val), list(v), float(np.max(info.error_estimate)))
         if mode == 'nested':
             g = multi.comp_fun(rec['comps'][0], x0)
